@@ -204,6 +204,29 @@ func buildCases(ctx *core.Ctx, shapes []Shape) []*Case {
 		}
 		add(Shape{NF: 4, Files: fs})
 	}
+	// files that share one name ("" and "x.soy"): per-file bookkeeping must not be keyed by the name
+	for _, nm := range []string{"-", "x.soy"} {
+		for _, msg := range []string{"none", "collide_sfx"} {
+			add(Shape{NF: 2, SameName: nm, Files: []FileShape{{[]int{1, 2}, msg, "ok"}, {[]int{}, "none", "ok"}}})
+			add(Shape{NF: 3, SameName: nm, Files: []FileShape{{[]int{}, "none", "ok"}, {[]int{1, 2, 3}, msg, "ok"}, {[]int{2}, "none", "ok"}}})
+		}
+		add(Shape{NF: 2, SameName: nm, Files: []FileShape{{[]int{}, "none", "check"}, {[]int{}, "none", "ok"}}})
+	}
+	// the same nameless expression as a {plural} subject in one message and a printed placeholder
+	// in another: across files, in one file, and after an EARLIER compile of the same process
+	for k := 0; k < 4; k++ {
+		u := 1000 + 10*k
+		add(Shape{NF: 2, Uniq: u + 1, Files: []FileShape{{[]int{}, "xplural", "ok"}, {[]int{}, "xprint", "ok"}}})
+		add(Shape{NF: 2, Uniq: u + 2, Files: []FileShape{{[]int{1}, "xprint", "ok"}, {[]int{2}, "xplural", "ok"}}})
+		add(Shape{NF: 3, Uniq: u + 3, Files: []FileShape{{[]int{}, "none", "ok"}, {[]int{}, "xplural", "ok"}, {[]int{}, "xprint", "ok"}}})
+		add(Shape{NF: 1, Uniq: u + 4, Files: []FileShape{{[]int{}, "xboth", "ok"}}})
+		// history: a bundle with the plural use is compiled first, then the bundle with the print use (and vice versa)
+		for j, pair := range [][2]string{{"xplural", "xprint"}, {"xprint", "xplural"}} {
+			hist := Instantiate("hist", "go", Shape{NF: 1, Uniq: u + 5 + j, Files: []FileShape{{[]int{}, pair[0], "ok"}}}, r)
+			add(Shape{NF: 1, Uniq: u + 5 + j, Files: []FileShape{{[]int{}, pair[1], "ok"}}})
+			cases[len(cases)-1].History = [][]core.File{hist.Files}
+		}
+	}
 	cases = append(cases, MapLitErrorCase("go-maplit-2err"))
 	return cases
 }
@@ -291,6 +314,7 @@ func exploreCase(ctx *core.Ctx, c *Case, st *exploreState, repsID, repsOther int
 		}
 		ctx.Distinct(Digest(h.String()))
 	}
+	runHistory(c)
 	c.Catalogue = BuildCatalogue(c)
 	cat := newCatalogue(c.Catalogue)
 	for _, alt := range c.Alts {
@@ -425,6 +449,17 @@ func exploreCase(ctx *core.Ctx, c *Case, st *exploreState, repsID, repsOther int
 	return
 }
 
+// runHistory compiles the bundles this process is to have compiled before it
+// first looks at the case (skipped in some child processes: VERIF_C13_NOHISTORY).
+func runHistory(c *Case) {
+	if os.Getenv("VERIF_C13_NOHISTORY") != "" {
+		return
+	}
+	for _, h := range c.History {
+		compile(h, identity(len(h)), c.Globals)
+	}
+}
+
 func diffHint(a, b string) string {
 	la, lb := strings.Split(a, "\n"), strings.Split(b, "\n")
 	for i := 0; i < len(la) && i < len(lb); i++ {
@@ -487,10 +522,18 @@ func ChildMain() {
 		go func() {
 			defer wg.Done()
 			for c := range ch {
+				runHistory(c)
 				cat := newCatalogue(c.Catalogue)
 				seen := map[string]bool{}
 				var n int64
-				for _, p := range Permutations(len(c.Files)) {
+				perms := Permutations(len(c.Files))
+				if os.Getenv("VERIF_C13_REVERSE") != "" {
+					// another compile history: the insertion orders are visited last to first
+					for a, b := 0, len(perms)-1; a < b; a, b = a+1, b-1 {
+						perms[a], perms[b] = perms[b], perms[a]
+					}
+				}
+				for _, p := range perms {
 					key := OrderKey(p)
 					for rep := 0; rep < reps; rep++ {
 						o := Observe(c, p, cat)
@@ -554,6 +597,14 @@ func children(ctx *core.Ctx, cases []*Case, st *exploreState) {
 			defer wg.Done()
 			cmd := exec.Command(exe, "quick")
 			cmd.Env = append(os.Environ(), "VERIF_C13_CHILD="+path, fmt.Sprintf("VERIF_C13_REPS=%d", ctx.Pick(2, 6)))
+			// the three processes have three compile histories: as the parent; insertion orders
+			// visited in reverse; without the bundles the parent compiled before a case
+			if i == 1 {
+				cmd.Env = append(cmd.Env, "VERIF_C13_REVERSE=1")
+			}
+			if i == 2 {
+				cmd.Env = append(cmd.Env, "VERIF_C13_NOHISTORY=1")
+			}
 			cmd.Stderr = os.Stderr
 			out, err := cmd.Output()
 			if err != nil {
